@@ -40,6 +40,11 @@ class C04(Prop):
             n = rng.randint(1, 6)
             pairs = [sc.gen_pair(rng, kind, float(h), lv) for _ in range(n)]
             yield {"stream": "domain", "kind": kind, "h": h, "level": lv, "y": [p[0] for p in pairs], "z": [p[1] for p in pairs]}
+        for y in (0.0, 0.25, 0.5):
+            # log loss at the certain forecasts 0 and 1 (the only place where a score may be infinite): ladders that end there
+            yield {"stream": "ladder", "kind": "logloss", "h": 0.0, "level": 0.5, "y": [y] * 4, "z": [0.5, 0.75, 0.9375, 1.0], "certain": True}
+        for y in (1.0, 0.5, 0.25):
+            yield {"stream": "ladder", "kind": "logloss", "h": 0.0, "level": 0.5, "y": [y] * 4, "z": [0.25, 0.125, 0.0625, 0.0], "certain": True}
         for k in range(N // 3):
             kind, h, lv = self.configs(rng)
             y, _ = sc.gen_pair(rng, kind, float(h), lv)
@@ -138,6 +143,8 @@ class C04(Prop):
             if math.isnan(v):
                 return f"score is NaN at y={y}, z={z}"
             if not math.isfinite(v):
+                if case.get("certain") and v == math.inf and z in (0.0, 1.0) and y != z:
+                    continue  # log loss of a certain forecast that is wrong (or of a fractional observation): +inf
                 return f"score is {v} at y={y}, z={z} where the mathematical score is finite"
             if v < -1e-11 * s:
                 return f"score {v!r} < 0 at y={y}, z={z}"
